@@ -17,12 +17,15 @@ class TNorm(a4_shape.Norm):
         self.ren = ren
         self.used = used
         self.X = None
+        self.stack = []
 
     def key(self, e, depth=0):
-        if isinstance(e, dict) and e.get("k") == "Call" and e.get("member") and depth < 4 and self.X is not None:
+        # helper values are inlined to a fixpoint (bounded by the nesting of helpers, not by how many named locals lie in between:
+        # both twins must come out the same however many intermediate helpers / locals one of them uses)
+        if isinstance(e, dict) and e.get("k") == "Call" and e.get("member") and len(self.stack) < 8 and self.X is not None:
             obj = strip(e.get("obj")) if e.get("obj") else None
             cal = self.X.by_pat.get(e.get("cpat"))
-            if obj is not None and obj.get("k") == "This" and cal is not None and cal.get("body") and cal is not self.fn:
+            if obj is not None and obj.get("k") == "This" and cal is not None and cal.get("body") and cal is not self.fn and cal.get("pat") not in self.stack:
                 body = cal["body"].get("s", []) if cal["body"].get("k") == "Block" else []
                 # a helper that only selects between return expressions by tests of constant arguments: pick the return
                 if len(cal["params"]) == len(e.get("args", [])):
@@ -104,19 +107,23 @@ class TNorm(a4_shape.Norm):
                             self.inline.update(linl)
                             for p, a in zip(cal["params"], e["args"]):
                                 self.inline[p["d"]] = a
+                            self.stack.append(cal.get("pat"))
                             try:
-                                return self.key(val, depth + 1)
+                                return self.key(val, 0)
                             finally:
                                 self.inline = saved
+                                self.stack.pop()
                 if len(body) == 1 and body[0].get("k") == "Return" and body[0].get("e") is not None and len(cal["params"]) == len(e.get("args", [])):
                     saved = self.inline
                     self.inline = dict(saved)
                     for p, a in zip(cal["params"], e["args"]):
                         self.inline[p["d"]] = a
+                    self.stack.append(cal.get("pat"))
                     try:
-                        return self.key(body[0]["e"], depth + 1)
+                        return self.key(body[0]["e"], 0)
                     finally:
                         self.inline = saved
+                        self.stack.pop()
         if isinstance(e, dict) and e.get("k") == "Ref" and e.get("dk") == "param" and e["d"] in self.inline and depth < 6:
             return self.key(self.inline[e["d"]], depth + 1)
         if isinstance(e, dict) and e.get("k") == "Ref" and e.get("dk") == "local" and not (e["d"] in self.inline and depth < 6):
@@ -242,6 +249,8 @@ def drop_skip(items):
 
 def shapes(X, g):
     res = {}
+    import astu
+    g = {m: astu.inline_value_decls(f, X.by_pat) for m, f in g.items()}      # flag-assembling helpers read as the statements they hold
     for mode in ("ws", "wb"):
         X.shape_fn(g[mode], mode, track=None)
         used = set(X.last_used)
